@@ -1175,6 +1175,24 @@ func body(w *hx.W) {
 			}
 		}
 	}
+	// long-lived connections: the client keeps one decoder for its whole life, so state that
+	// survives a response (list depth, literal bookkeeping, pending-command list) must not drift
+	longCfgs := []struct {
+		name, en string
+		caps     imap.CapSet
+	}{
+		{"rev1", "none", imap.CapSet{imap.CapIMAP4rev1: {}}},
+		{"rev1+rev2", "IMAP4rev2", imap.CapSet{imap.CapIMAP4rev1: {}, imap.CapIMAP4rev2: {}}},
+		{"rev1+ext", "UTF8=ACCEPT", imap.CapSet{imap.CapIMAP4rev1: {}, imap.CapMove: {}, imap.CapUIDPlus: {}, imap.CapESearch: {}, imap.CapListExtended: {}, imap.CapListStatus: {}, imap.CapNamespace: {}, imap.CapStatusSize: {}, imap.CapBinary: {}}},
+		{"rev1+rev2", "none", imap.CapSet{imap.CapIMAP4rev1: {}, imap.CapIMAP4rev2: {}}},
+	}
+	for li, lc := range longCfgs {
+		if w.Shard%len(longCfgs) != li || (w.Quick() && w.Shard >= len(longCfgs)) {
+			continue
+		}
+		runSession(w, rng, lc.caps, lc.name, lc.en, w.Pick(2500, 6000))
+		w.Metric("long_sessions", 1)
+	}
 	w.Sample(map[string]interface{}{"kind": "session", "operations": "FETCH with random attribute subsets, envelopes, nested body structures, body/binary literals of sizes {0,1,2,100,4095,4096,4097,70000}; STATUS; LIST with attributes/CHILDINFO/OLDNAME/STATUS pairing; SEARCH and ESEARCH; SELECT data; APPENDUID/COPYUID; MOVE; EXPUNGE; NAMESPACE"})
 }
 
@@ -1182,7 +1200,7 @@ func main() {
 	hx.Main(hx.Spec{
 		ID:    "C03",
 		Level: "exploration",
-		Rule: "sessions of 40..60 commands whose response data is generated and written by a stub backend through the server's writer API: FETCH (all attribute subsets, envelopes with NIL/empty/group address lists and RFC 2047 text, body structures nested to depth 3 with message/rfc822 and text parts, extension data, empty-vs-NIL variants, body and binary literals of sizes {0,1,2,100,4095,4096,4097,70000} with arbitrary bytes, BINARY.SIZE), STATUS (all items), LIST (attributes, delimiters, CHILDINFO, OLDNAME, LIST-STATUS pairing with missing STATUS), SEARCH/ESEARCH, SELECT data incl. rev2 LIST, APPENDUID, COPYUID tagged and untagged (MOVE), EXPUNGE streams, NAMESPACE, capabilities x 3 server configurations x {nothing, UTF8=ACCEPT, IMAP4rev2} enabled; distinct per command (seeded)",
+		Rule: "sessions of 40..60 commands (plus long-lived sessions of 2500..6000 commands on one connection) whose response data is generated and written by a stub backend through the server's writer API: FETCH (all attribute subsets, envelopes with NIL/empty/group address lists and RFC 2047 text, body structures nested to depth 3 with message/rfc822 and text parts, extension data, empty-vs-NIL variants, body and binary literals of sizes {0,1,2,100,4095,4096,4097,70000} with arbitrary bytes, BINARY.SIZE), STATUS (all items), LIST (attributes, delimiters, CHILDINFO, OLDNAME, LIST-STATUS pairing with missing STATUS), SEARCH/ESEARCH, SELECT data incl. rev2 LIST, APPENDUID, COPYUID tagged and untagged (MOVE), EXPUNGE streams, NAMESPACE, capabilities x 3 server configurations x {nothing, UTF8=ACCEPT, IMAP4rev2} enabled; distinct per command (seeded)",
 		Assumptions: []string{
 			"normalisation: envelope sender / reply-to default to From when nil; empty address lists, parameter maps and language lists are equivalent to NIL; parameter keys are lower-cased and the transfer encoding upper-cased with 7BIT as default; dates are compared to the second with their zone offset; a section's partial carries its offset only; APPENDLIMIT NIL is delivered as the maximum value",
 			"the backend supplies message/rfc822 data exactly for message/rfc822 parts and text data exactly for text/* parts, and extension data whenever BODYSTRUCTURE is requested (the server API's documented contract)",
